@@ -10,9 +10,9 @@ REG = dict(category="model_checking",
     "predicts every proof byte) and Verify (non-empty selection, matching count, scalars in [1,n), Borromean ring equation from Borromean.tla). "
     "TLC (a) model-checks Initialize's post-conditions over every abstract tag list with n <= 6 (8 thorough) inputs: every match pattern (position, multiplicity), "
     "subset size, iteration limits 0/1/2/5 and steering seeds; (b) generates call records: parser strings for count fields 0..9, 255..264, 65535 with length "
-    "offsets, every padding-bit pattern for 12 (thorough 35) counts, initialize for n in 1..6, 128, 200, 255, 256, 257 (every match set and size for n <= 4), "
+    "offsets, every padding-bit pattern for 12 (thorough 35) counts, initialize for n in 1..6, 200, 255, 256, 257 (thorough also 7, 8, 128; every match set and size for n <= 4, thorough 6), "
     "honest proofs for n in 1..6, 255, 256 with predicted bytes, key edge values 0 / n-1 / n / n+1 / 2^256-1, refusals, all single-bit flips of one proof, scalar "
-    "substitutions, s+n re-encodings from a spec-side prover with chosen small scalars, tag-list edits, empty selection, selected input = output; all replayed on the "
+    "substitutions, s+n re-encodings from a spec-side prover with chosen small scalars, tag-list edits, empty selection incl. the empty-ring forgery e0 = SHA256(msg), selected input = output; all replayed on the "
     "real API (parser records also on the sanitizer build); (c) validates driver traces (random asset lists through generator_generate_blinded, initialize, generate, "
     "verify with mutations).",
     note="Trusted: TLC, overrides, harness. Ephemeral tags in generated records are points with known discrete logarithms (the code cannot tell); real NUMS generators "
@@ -87,6 +87,22 @@ def driver(chk, n_sessions):
     return iev + pev + chk.record(ver, "std")
 
 
+def replay_safe(chk, recs, variant, name):
+    """chk.replay, but survives a harness that dies in the middle of an output line (memory corruption by the code under
+    test leaves a cut-off JSON line, which the generic reader cannot parse): the batch is then split until the records on
+    which the implementation dies are isolated, and those are reported as violations."""
+    try:
+        return chk.replay(recs, variant, name)
+    except ValueError:
+        pass
+    if len(recs) == 1:
+        chk.violation("implementation crashed (output cut short) on a record of %s [%s]" % (name, variant), recs, variant)
+        return
+    step = max(1, len(recs) // 16)
+    for k in range(0, len(recs), step):
+        replay_safe(chk, recs[k:k + step], variant, name)
+
+
 def run(chk):
     quick = chk.tier == "quick"
     chk.groups = ["surjection"]
@@ -95,13 +111,19 @@ def run(chk):
     chk.build(["std", "asan"] + ([] if quick else ["verify", "i64"]))
     chk.model(MODULE, "C11_model.cfg", timeout=1800)
     recs = chk.generate(MODULE, "C11_gen.cfg", "gen", timeout=1800 if quick else 7200)
-    chk.replay(recs, "std", "generated surjection records")
+    replay_safe(chk, recs, "std", "generated surjection records")
     parser = [r for r in recs if r["e"] in ("SjParse", "SjInit")]
-    chk.replay(parser if quick else recs, "asan", "generated parser/initialize records" if quick else "generated surjection records")
+    replay_safe(chk, parser if quick else recs, "asan", "generated parser/initialize records" if quick else "generated surjection records")
     if not quick:
         for v in ("verify", "i64"):
-            chk.replay(recs, v, "generated surjection records")
-    chk.validate(driver(chk, 28 if quick else 400), MODULE, "C11_trace.cfg", "driver", timeout=3000)
+            replay_safe(chk, recs, v, "generated surjection records")
+    try:
+        events = driver(chk, 28 if quick else 400)
+    except ValueError:
+        events = []
+        chk.violation("implementation crashed (output cut short) while the driver trace was recorded", [{"e": "SjDriver", "in": {"seed": chk.seed}}], "std")
+    if events:
+        chk.validate(events, MODULE, "C11_trace.cfg", "driver", timeout=3000)
     return chk.finish(LEVEL,
         "Model: TLC checks InitPost on SjInitialize for every (n, match pattern, subset size, iteration limit, seed) of the bounded instance. "
         "G: TLC enumerates Cases of C11_Surjection.tla (parser strings, padding patterns, initialize, honest chains with byte-exact predicted proofs, refusals, "
